@@ -113,7 +113,7 @@ FactorsOK(in, shape, kind) ==
 -----------------------------------------------------------------------------
 (* Domain.  Shapes of one sample (order 1-3, i.e. input X of order 2-4), of the target, ranks,     *)
 (* regularisation (tenths), sample counts.                                                         *)
-SampleShapes == {<<3>>, <<4>>, <<3, 2>>, <<2, 3>>, <<2, 2, 2>>, <<3, 2, 2>>}
+SampleShapes == {<<3>>, <<4>>, <<3, 2>>, <<2, 3>>, <<2, 2, 2>>, <<3, 2, 2>>, <<2, 2, 2, 2>>}     \* X of order 2..5
 TargetShapes == {<<>>, <<2>>, <<2, 3>>}
 NSamples == {6, 9, 12}
 Regs == {1, 10, 100}                         \* reg_W in tenths: 0.1, 1, 10
@@ -128,16 +128,21 @@ MaxIter(opt) == CASE opt = "cap" -> 2 [] opt \in {"tight", "loose"} -> 40 [] OTH
 \* the forms in which new data is handed to predict / transform (values are the same small integers)
 RegDataForms == {"float32", "int64", "int32", "uint8", "fortran", "strided"}     \* besides float64, C order
 PlsDataForms == {"fortran", "strided"}          \* CP_PLSR centres the data in place: floating-point arrays only
+\* UNITS: X is handed over multiplied by 2^ux and the targets by 2^uy (powers of two: exact).  The events log every
+\* quantity in the configuration's own units (scores / 2^ux, predictions / 2^uy, weights * 2^ux / 2^uy -- exact
+\* rescalings by the harness), so every clause below is unit-free: a model that only works for O(1) data fails them.
+UnitPairs == {<<0, 0>>, <<-20, -20>>, <<-40, -30>>, <<80, 50>>, <<30, -40>>}
+UnitRanks == IF FullCross THEN 1..3 ELSE {1, 3}          \* ranks / component counts of the non-base-unit configurations
 NRegPairs == IF FullCross THEN NSamples \X Regs ELSE {<<6, 1>>, <<9, 10>>, <<12, 100>>}
 PlsN(ny, nc) == IF FullCross THEN NSamples ELSE {<<6, 9, 12>>[((ny + nc) % 3) + 1]}
 ValidReg(c) ==
     /\ c.model \in {"cp", "tucker"} /\ c.n \in NSamples /\ c.xs \in SampleShapes /\ c.reg \in Regs /\ c.k \in 1..Draws
-    /\ c.opt \in RegOpts
+    /\ c.opt \in RegOpts /\ <<c.ux, c.uy>> \in UnitPairs
     /\ IF c.model = "cp" THEN c.ys \in TargetShapes /\ c.rank \in 1..3 /\ c.ranks = <<>>
        ELSE c.ys = <<>> /\ c.rank \in 1..3 /\ c.ranks = TuckerRanks(c.xs, c.rank)
 WeightShape(c) == c.xs \o c.ys
 ValidPls(c) == /\ c.n \in NSamples /\ c.xs \in SampleShapes /\ c.ny \in 0..3 /\ c.nc \in 1..3 /\ c.k \in 1..PlsDraws
-               /\ c.opt \in PlsOpts
+               /\ c.opt \in PlsOpts /\ <<c.ux, c.uy>> \in UnitPairs
 YCols(c) == IF c.ny = 0 THEN 1 ELSE c.ny      \* ny = 0: Y given as a vector
 
 -----------------------------------------------------------------------------
@@ -181,14 +186,22 @@ NoCfg == [kind |-> "none"]
 Seeds == {[kind |-> "seed", fam |-> f, xs |-> xs] : f \in {"cp", "tucker", "pls", "thm"}, xs \in SampleShapes}
 CfgsOf(sd) ==
     CASE sd.fam = "cp" ->
-            {[kind |-> "reg", model |-> "cp", n |-> nr[1], xs |-> sd.xs, ys |-> ys, rank |-> r, ranks |-> <<>>, reg |-> nr[2], opt |-> o, k |-> k] :
-                nr \in NRegPairs, ys \in TargetShapes, r \in 1..3, o \in RegOpts, k \in 1..Draws}
+            {[kind |-> "reg", model |-> "cp", n |-> nr[1], xs |-> sd.xs, ys |-> ys, rank |-> r, ranks |-> <<>>, reg |-> nr[2], opt |-> o,
+              ux |-> u[1], uy |-> u[2], k |-> k] :
+                nr \in NRegPairs, ys \in TargetShapes, r \in 1..3, o \in RegOpts, k \in 1..Draws, u \in {<<0, 0>>}}
+            \cup {[kind |-> "reg", model |-> "cp", n |-> 9, xs |-> sd.xs, ys |-> ys, rank |-> r, ranks |-> <<>>, reg |-> 10, opt |-> "tight",
+                    ux |-> u[1], uy |-> u[2], k |-> 1] : ys \in TargetShapes, r \in UnitRanks, u \in UnitPairs \ {<<0, 0>>}}
       [] sd.fam = "tucker" ->
-            {[kind |-> "reg", model |-> "tucker", n |-> nr[1], xs |-> sd.xs, ys |-> <<>>, rank |-> r, ranks |-> TuckerRanks(sd.xs, r), reg |-> nr[2], opt |-> o, k |-> k] :
-                nr \in NRegPairs, r \in 1..3, o \in RegOpts, k \in 1..Draws}
+            {[kind |-> "reg", model |-> "tucker", n |-> nr[1], xs |-> sd.xs, ys |-> <<>>, rank |-> r, ranks |-> TuckerRanks(sd.xs, r), reg |-> nr[2], opt |-> o,
+              ux |-> u[1], uy |-> u[2], k |-> k] :
+                nr \in NRegPairs, r \in 1..3, o \in RegOpts, k \in 1..Draws, u \in {<<0, 0>>}}
+            \cup {[kind |-> "reg", model |-> "tucker", n |-> 9, xs |-> sd.xs, ys |-> <<>>, rank |-> r, ranks |-> TuckerRanks(sd.xs, r), reg |-> 10, opt |-> "tight",
+                    ux |-> u[1], uy |-> u[2], k |-> 1] : r \in UnitRanks, u \in UnitPairs \ {<<0, 0>>}}
       [] sd.fam = "pls" ->
-            UNION {{[kind |-> "pls", n |-> n, xs |-> sd.xs, ny |-> ny, nc |-> nc, opt |-> o, k |-> k] :
+            UNION {{[kind |-> "pls", n |-> n, xs |-> sd.xs, ny |-> ny, nc |-> nc, opt |-> o, ux |-> 0, uy |-> 0, k |-> k] :
                         n \in PlsN(ny, nc), o \in PlsOpts, k \in 1..PlsDraws} : ny \in 0..3, nc \in 1..3}
+            \cup {[kind |-> "pls", n |-> 9, xs |-> sd.xs, ny |-> ny, nc |-> nc, opt |-> "default", ux |-> u[1], uy |-> u[2], k |-> 1] :
+                        ny \in (IF FullCross THEN 0..3 ELSE {0, 2}), nc \in UnitRanks, u \in UnitPairs \ {<<0, 0>>}}
       [] sd.fam = "thm" ->
             {[kind |-> "thm", what |-> "predict", xs |-> sd.xs, ys |-> ys, a |-> a, p |-> p] :
                 ys \in TargetShapes, a \in 1..3, p \in Permutations(1..3)}
